@@ -308,7 +308,10 @@ def eval_cancel(case, stats=None):
     not-yet-cancelled members of closure_spec({task}); nothing else changes state."""
     n, edges, flags, marks, start = case["n"], case["edges"], case["flags"], case["marks"], case["start"]
     par, chl = rel_maps(n, edges)
-    g, tasks, now = realize_marks(n, edges, flags, marks)
+    try:
+        g, tasks, now = realize_marks(n, edges, flags, marks)
+    except Exception as e:  # only legal lifecycle calls are made while building the state
+        return [("build.legal_call_rejected", "%r while building marks=%s edges=%s flags=%s" % (e, marks, edges, flags))], 0
     pre = [t.state for t in tasks]
     cancelled = set(i for i in range(n) if pre[i] == X_)
     S = closure_spec(n, par, chl, flags, cancelled, [start])
@@ -349,7 +352,10 @@ def eval_notify(case, stats=None):
     """contract of TaskGraph.notify_task_completion for the RUNNING task `v` of a reachable state"""
     n, edges, flags, targets, v = case["n"], case["edges"], case["flags"], case["targets"], case["v"]
     par, chl = rel_maps(n, edges)
-    built = drive(n, edges, flags, targets, case.get("probs"), case.get("seeds"))
+    try:
+        built = drive(n, edges, flags, targets, case.get("probs"), case.get("seeds"))
+    except Exception as e:  # only legal lifecycle calls are made while building the state
+        return [("build.legal_call_rejected", "%r while building targets=%s edges=%s flags=%s" % (e, targets, edges, flags))], False
     if built is None:
         return None
     g, tasks, now, planning = built
@@ -514,15 +520,16 @@ def frontier_clauses(n, par, flags, st, rel, time, L, pre, ret, rtg, offer, nonp
             elif s == U_ and not pre:
                 out.append(("frontier.offers_running_without_preemption", "N%d" % v))
             if nonplanning and L == 0 and not rtg and not ret and s in (V_, R_) and not parents_done(st, par, flags, v):
-                bad = sorted(set(st[p].name.lower() for p in par[v] if st[p] != C_))
-                if bad == ["cancelled"]:
+                bad = set(st[p].name.lower() for p in par[v] if st[p] != C_)
+                if bad == set(["cancelled"]):
                     # the task should itself have been cancelled by the cascade
                     vid = "cancel.cascade_incomplete.via_frontier"
                 elif pol != "ALL":
                     # only the predicted child of a pending conditional receives its estimate
                     vid = "frontier.offers_task_with_incomplete_parent.predicted_branch"
                 else:
-                    vid = "frontier.offers_task_with_incomplete_parent.all_branches.parent_" + "_".join(bad)
+                    lead = [x for x in ("running", "released", "scheduled", "virtual") if x in bad][0]
+                    vid = "frontier.offers_task_with_incomplete_parent.all_branches.parent_" + lead
                 out.append((vid, "N%d offered with lookahead 0 while parents are %s" % (v, [(p, st[p].name) for p in par[v]])))
         else:
             if s == R_ and rel[v] <= time:
@@ -537,7 +544,10 @@ def eval_state(case, stats=None):
     is_complete.  case['checks'] selects; case['queries'] optionally restricts the frontier calls."""
     n, edges, flags, targets = case["n"], case["edges"], case["flags"], case["targets"]
     par, chl = rel_maps(n, edges)
-    built = drive(n, edges, flags, targets, case.get("probs"), case.get("seeds"))
+    try:
+        built = drive(n, edges, flags, targets, case.get("probs"), case.get("seeds"))
+    except Exception as e:  # only legal lifecycle calls are made while building the state
+        return [("build.legal_call_rejected", "%r while building targets=%s edges=%s flags=%s" % (e, targets, edges, flags))], False, 1
     if built is None:
         return None
     g, tasks, now, planning = built
@@ -1356,6 +1366,10 @@ def main():
     nproc = min(16, os.cpu_count() or 1)
     infeasible = 0
     merged = {}
+    import gc
+
+    gc.collect()
+    gc.freeze()  # keep the forked workers from copying the parent's heap page by page
     ctx = multiprocessing.get_context("fork")
     with ctx.Pool(nproc) as pool:
         for evals, distinct, infs, calls, viol, samples, secs in pool.imap_unordered(run_chunk, jobs):
